@@ -58,7 +58,7 @@ func init() {
 				}
 			}
 		}
-		ok := target["e"] != nil && target["e"] == target["escape"] && recv["e"] == recv["escape"]
+		ok := target["e"] != nil && target["escape"] != nil && target["e"].String() == target["escape"].String() && recv["e"] != nil && recv["e"] == recv["escape"]
 		return []*Obligation{mk(ok, "the names e and escape are registered with the same method value of the same receiver", at)}, nil
 	})
 }
